@@ -118,7 +118,7 @@ def enumerate_cases(sc):
         if txt not in seen:
             seen.add(txt)
             errs.append(json.loads(txt))
-    if len(errs) < 100 or len(out["SET"]) < 10000:
+    if len(errs) < 100 or len(out["SET"]) != 13376:
         raise Broken("StrEnum enumerated too little: %d error cases, %d set cases" % (len(errs), len(out["SET"])))
     out["ERR"] = errs
     return out
@@ -544,7 +544,13 @@ def build_cases(chk, en, hist_main, hist_nul, hist_long):
         return Case(nid[0], kind, steps, tag)
     cons = ["FromList", "String", "FromBytes", "ReadRaw"]
     sets = []
-    src = en["SET"] + (en["SET4"] if chk.thorough else chk.rng.sample(en["SET4"], 400))
+    if chk.thorough:
+        src = en["SET"] + en["SET4"]
+    else:
+        # quick: every string of length 1 and 2, a third of the length-3 strings rotating with the seed (each string
+        # with all its positions and replacements), a sample of the length-4 cases
+        third = chk.seed % 3
+        src = [c for c in en["SET"] if len(c[0]) < 3 or sum(c[0]) % 3 == third] + chk.rng.sample(en["SET4"], 300)
     for k, (s, i, c, b) in enumerate(src):
         how = cons[k % 4]
         first = [how, [1, k % 2] if how == "ReadRaw" else [1], b if how == "FromBytes" else s]
@@ -562,18 +568,18 @@ def build_cases(chk, en, hist_main, hist_nul, hist_long):
             byop[e[0]].append(e)
         errs = []
         for op in sorted(byop):
-            errs += byop[op] if len(byop[op]) <= 150 else chk.rng.sample(byop[op], 150)
+            errs += byop[op] if len(byop[op]) <= 100 else chk.rng.sample(byop[op], 100)
     errc = [mk("errclass", en["ERRPREFIX"] + [e]) for e in errs]
     pairs = en["CMP"]
     if not chk.thorough:        # quick: every pair of strings that both contain U+0000, a sample of the others
         both = [p for p in pairs if 0 in p[0] and 0 in p[1]]
         rest = [p for p in pairs if not (0 in p[0] and 0 in p[1])]
-        pairs = both + chk.rng.sample(rest, 500)
+        pairs = both + chk.rng.sample(rest, 300)
     cmpc = []
     for k, (x, y) in enumerate(pairs):
         cmpc.append(mk("cmp", [[("FromList", "String", "FromBytes")[k % 2], [1], x], ["FromList", [2], y], ["Cmp", [1, 2], []], ["Cmp", [2, 1], []], ["Cmp", [1, 1], []]]))
     copyc = []
-    for s_, at, a, b in en["COPY"]:
+    for s_, at, a, b in (en["COPY"] if chk.thorough else [c for k, c in enumerate(en["COPY"]) if k % 3 == chk.seed % 3]):
         form = 2 if (a, b) != (0, len(s_)) else chk.rng.randrange(3)
         form = 1 if form == 2 and b == len(s_) and chk.rng.randrange(2) else form
         copyc.append(mk("copy", [["FromList", [1], s_], ["CopyBang", [1, at, 1, form, a, b], []], ["ToUtf8", [1, 0, 0, len(s_)], []]]))
@@ -626,7 +632,7 @@ def run():
         if T:
             planes = list(range(17))
         else:
-            planes = sorted({0, 1, 16, chk.rng.randrange(2, 16), chk.rng.randrange(2, 16)})
+            planes = sorted({0, 1, 16, chk.rng.randrange(2, 16)})
         t0s = time.time()
         sweep_f = pool2.submit(sweep, chk, build, sc, planes)
         futs = {name: pool2.submit(timed, name, cases, cfg) for name, cases, cfg in groups}
@@ -639,7 +645,7 @@ def run():
         missing = [op for op in ALL_OPS if stats["ops"][op] == 0]
         if missing:
             raise Broken("operations never validated against the implementation: %s" % missing)
-        if stats["set_ok"] < 10000 or stats["errsteps"] < 200:
+        if stats["set_ok"] < (10000 if T else 4000) or stats["errsteps"] < 200:
             raise Broken("too few string-set! / error-class steps validated: %d / %d" % (stats["set_ok"], stats["errsteps"]))
         # ---- binding self test on a real log of this run
         selftest(chk, sc, sc.file("log_hist_0.ndjson"))
@@ -683,7 +689,7 @@ def run():
                            "reader/err: TLC-enumerated literal-syntax and error-class calls; hist/nul/long: TLC -simulate histories of <=40 operations); distinct = different step "
                            "sequences; non-trivial = some register held a non-ASCII character during the history; the sweep counts one trace per plane of 65536 code points")
         chk.cov["exhaustive"] = True
-        for c in (sets[5000], main[0], errc[0]):
+        for c in (sets[len(sets) // 2], main[0], errc[0]):
             chk.sample({"kind": c.kind, "steps": c.steps[:12]})
         ev0 = [e for e in parse_log(sc.file("log_hist_0.ndjson")) if e.get("e") == "Step"][:3]
         chk.sample({"logged_events": ev0})
